@@ -24,6 +24,7 @@ import XehModel.Proofs.SessionMeter
 import XehModel.Proofs.SessionBound
 import XehModel.Proofs.VMRev2
 import XehModel.Props.C02
+import XehModel.Proofs.CursorLimit
 
 namespace Xeh.C14
 open Xeh Xeh.Mach
@@ -246,5 +247,16 @@ example :
       (fun s => (s.m.meter, s.m.code.length, s.m.insnLimit)) = some (4, 0, some 10) := by decide +kernel
 
 end Sources
+
+/-! ### the parsing and construction words (the layer of Model/Cursor.lean) -/
+
+/-- **the stack limit binds the bit-string words too**, over any history: with `set_stack_limit(Some(L))` in force, after
+    any sequence of reading, seeking, opening / closing, packing and emitting words — succeeding or failing, the limit
+    possibly below the depth the stack already has — the limit is still `L` and the data stack is never deeper than
+    `max L (depth before)`; a word whose result does not fit fails (`read_refused_moves_nothing`, C06) -/
+theorem parsing_words_respect_the_stack_limit (ops : List Cur.POp) (s : Cur.CurState) (L : Nat)
+    (h : s.stackLimit = some L) (hops : ∀ op ∈ ops, ∀ l, op ≠ Cur.POp.limit l) :
+    (Cur.runAll s ops).stackLimit = some L ∧ (Cur.runAll s ops).ds.length ≤ max L s.ds.length :=
+  Cur.limit_history ops s L h hops
 
 end Xeh.C14
